@@ -92,6 +92,13 @@ func (c *Ctx) classOfField(owner *types.Named, f *types.Var) FieldClass {
 	if !c.isCarrierType(f.Type()) {
 		return Scalar
 	}
+	// a field that did not exist when the table was frozen (not in the recorded prints): treated as a reference,
+	// the conservative class — recursion along it must be guarded like recursion along any name-resolved link
+	if owner != nil && owner.Obj().Pkg() != nil && len(anchorFieldPrints) > 0 {
+		if _, recorded := anchorFieldPrints[shortPkg(owner.Obj().Pkg().Path())+"."+objName(owner.Obj())+"."+recordedFieldName(f)]; !recorded {
+			return Reference
+		}
+	}
 	return Unclassified
 }
 
